@@ -61,5 +61,43 @@ CHECKS = {
         "note": CODEC_NOTE + "Ring buffer library modelled, not verified. TCP half: runtime (kernel segmentation, net.Conn.Read), partial.",
         "technique": "Lean 4 refinement proof (ring buffer -> byte queue) + per-operation model/code differential run over geometries and chunkings",
     },
+    "C04": {
+        "text": "Totality theorems (no modelled panic reachable, termination by well-founded recursion on the remaining bytes) for the handshake, metadata, "
+                "gzip-glue and typed-error decoders for ALL byte strings, the gzip allocation bound independent of ISIZE, and (as the agents' proofs land: "
+                "C04a one-shot frame decoder, C04b streaming decoder no-panic + progress). Every decoding entry point of the real code is run on a "
+                "structure-aware malformed stream under recover, verdicts and fields compared with the model, allocation measured per call.",
+        "design_ref": "DESIGN.md section 7, C04",
+        "note": CODEC_NOTE + "Go's allocator/GC are runtime: allocation is measured, the bound proved is the model's ghost.",
+        "technique": "Lean 4 totality proofs over models with explicit panic outcomes + malformed-input differential run + per-call allocation measurement",
+    },
+    "C10": {
+        "text": "Theorems about the glue around compress/gzip with the library as an explicit oracle: Decompress succeeds iff the oracle read the whole "
+                "stream with valid checksum and then returns the full content, error otherwise (never truncated data as success), compress-then-"
+                "decompress identity under the oracle's soundness, allocation bounded by 1032*len+512, and the frame-level flag rule (gzip flag iff "
+                "threshold != 0 and reached; body = compressor output) from the regenerated threshold condition. The real Decompress is compared with "
+                "the standard reader's verdict on every truncation, corruptions, wrong trailers, multi-member streams.",
+        "design_ref": "DESIGN.md section 7, C10",
+        "note": CODEC_NOTE + "DEFLATE/CRC-32 are compress/gzip's (trusted, used as the oracle). Concurrent pool use: sampled schedules only.",
+        "technique": "Lean 4 proof of the gzip glue over an oracle + differential run against the standard library reader + regenerated threshold condition",
+    },
+    "C11": {
+        "text": "A world model with header pools holding ARBITRARY stale headers and per-connection parked headers/rings; theorems: headerPool.Get resets "
+                "every field (field and reset lists regenerated from the source), every operation's result in any world equals its isolated result, "
+                "one-shot operations touch no connection state, a streaming step only its own, and by induction every interleaved history over any "
+                "number of connections yields the isolated results. Real histories (incl. failing and partial decodes) are compared with the "
+                "stateless model and with isolated shadow connections.",
+        "design_ref": "DESIGN.md section 7, C11",
+        "note": CODEC_NOTE + "sync.Pool semantics trusted; goroutine interleavings sampled.",
+        "technique": "Lean 4 non-interference proof by induction over histories + history-based differential run + regenerated struct/reset tables",
+    },
+    "C19": {
+        "text": "Theorems: for every schedule of atomic add-and-fetch steps (any goroutines, any interleaving, any length below 2^32) the ids issued are "
+                "exactly 1..N in issue order, hence distinct and increasing; options cannot override a request's fresh id; response/push ids come from "
+                "the caller. The statement lists of the generator and the six constructors are regenerated from the source and checked by `decide`; "
+                "constructor/option mixes and G x M concurrent calls are compared with the model and the property on the real code.",
+        "design_ref": "DESIGN.md section 7, C19",
+        "note": CODEC_NOTE + "sync/atomic trusted.",
+        "technique": "Lean 4 proof by induction over schedules + regenerated source-structure facts + differential and concurrent runs",
+    },
 }
 NOT_CLAIMED = {}
